@@ -105,8 +105,8 @@ class Subscription(OneShotTask, DebugContents):
         self.lifetime = lifetime
         self.covIncrement = cov_inc
 
-        # if lifetime is zero this is a permanent subscription
-        if lifetime > 0:
+        # if lifetime is zero or absent this is a permanent subscription
+        if lifetime:
             self.install_task(delta=self.lifetime)
 
     def cancel_subscription(self):
